@@ -51,18 +51,21 @@ class LogActionContext(ActionContext):
         log, watches, vars_ = self.process_log(log_msg)
         self.trigger_context.attach_result(LogActionResult(self.location_action, log))
 
-    def process_log(self, log_msg) -> Tuple[str, List['WatchResult'], Dict[str, 'Variable']]:
+    def process_log(self, log_msg, watch_context: Optional[ActionContext] = None) \
+            -> Tuple[str, List['WatchResult'], Dict[str, 'Variable']]:
         """
         Process the log message.
 
         :param log_msg: the configure log message
+        :param watch_context: the action context to evaluate the expressions in (when the log is part of another
+            action, e.g. a snapshot, the expressions have to use the variable ids and limits of that action)
 
         :returns:
             (str) process_log: the result of the processed log
             (list) watch: the watch results from the expressions
             (dic) vars: the collected variables
         """
-        ctx_self = self
+        ctx_self = watch_context or self
         watch_results = []
         _var_lookup = {}
 
